@@ -40,11 +40,11 @@ CLAIMED = {
  "C12": dict(technique=T_T + " (driver sequences + racing arrivals / give-ups on the eager clock)",
    text="Driver sequences with backlog 1-2: full backlog refuses at once, queue_size equals blocked callers after every event; concurrent arrivals racing for the last slot and give-ups racing hand-offs: at every quiescent state gauge = parked callers <= max.",
    ref="DESIGN 7 C12", note="preemption bound 2-3"),
- "C13": dict(technique=T_T + " over a grid of instants on the lazy virtual clock, every tie order",
-   text="Grid of arrival/bound/cancel/release instants for deadline, blocking and queue limiters: the caller returns refused exactly at its bound, granted exactly at the release, pre-cancelled calls and arrivals at/after the deadline consume nothing; plus driver sequences for queue timeouts/cancellation.",
+ "C13": dict(technique=T_T + " over a grid of instants on the lazy virtual clock: wake-ups of one instant are concurrent (every tie order and every interleaving of the woken threads within the bound)",
+   text="Grid of arrival/bound/cancel/release instants for deadline, blocking and queue limiters: the caller returns refused exactly at its bound, granted exactly at the release, pre-cancelled calls and arrivals at/after the deadline consume nothing; a second caller that follows the first while the capacity is still held is bounded the same way; plus driver sequences for queue timeouts/cancellation.",
    ref="DESIGN 7 C13", note="virtual clock: statements about the code's logic at exact instants"),
  "C14": dict(technique="complete enumeration of the finite closed space (plain build of the real interceptors with recording doubles)",
-   text="Interceptor kind x limiter answer x call result x classifier x options, and all sequences of <= 3-4 RecvMsg/SendMsg with distinct recv/send limiters: right limiter consulted once before the call, token completed exactly once with the classifier's outcome, results unchanged, refusals touch nothing.",
+   text="Interceptor kind x limiter answer x call result x classifier x options, all sequences of <= 3-4 RecvMsg/SendMsg with distinct recv/send limiters, and RecvMsg/SendMsg in progress on one stream while another operation runs on it (nested at the inner-stream seam): right limiter consulted once before the call, token completed exactly once with the classifier's outcome, results unchanged, refusals touch nothing.",
    ref="DESIGN 7 C14", note="unmodified repo + real grpc module; no network"),
  "C15": dict(technique=T_S + "; random draws enumerated without bound",
    text="RTT step sequences x all jitter/countdown draws for Vegas and Gradient: after every sample the baseline is unset or <= the sample, equals the minimum since a reset point, and that reset point is recent.",
@@ -55,11 +55,11 @@ CLAIMED = {
  "C17": dict(technique=T_T + " in a -race build: ThreadSanitizer happens-before analysis as the per-execution monitor, scheduler hand-offs hidden from it",
    text="Every unordered pair of exported calls (incl. a call with itself) on a shared instance of every limit, strategy, partition, limiter, measurement and registry type — incl. started registries and whole limiter stacks reporting to one, with the poll tick firing at any point — runs as two threads; all interleavings within the preemption bound are enumerated and every execution is monitored by the race detector; calibration scenarios prove on every run that the monitor is neither blinded nor triggered by the scheduler.",
    ref="DESIGN 7 C17", note="pairs of calls (triples in the thorough tier); reports are deduplicated per process by the detector; vrt is //go:norace and adds no happens-before edge of its own"),
- "C18": dict(technique=T_S + " with twin probes after Reset",
-   text="Add/Get/Reset/Update sequences for every measurement type against reference folds; after every Reset the instance and a new one are driven with every continuation of length <= 3 and must agree; sample-window summaries checked for every permutation.",
+ "C18": dict(technique=T_S + " with twin probes after Reset + " + T_T + " for Add racing Update",
+   text="Add/Get/Reset/Update sequences for every measurement type against reference folds; after every Reset the instance and a new one are driven with every continuation of length <= 3 and must agree; sample-window summaries checked for every permutation; Add racing Update(identity) and Get on Minimum/Single/ExponentialAverage must leave exactly what the same samples give sequentially (twin instance).",
    ref="DESIGN 7 C18", note="depth 6 (quick) / 8 (thorough)"),
  "C19": dict(technique=T_T + "; lazy virtual clock",
-   text="N > limit callers on fixed and generic pools (all orderings): holders never exceed the limit, everybody is granted with no virtual time elapsing (with 300 ms hold times: the k-th grant exactly when the (k-limit)-th holder releases), also with exactly limit+backlog callers; nobody is parked while a slot is free.",
+   text="N > limit callers on fixed and generic pools (all orderings): holders never exceed the limit, everybody is granted with no virtual time elapsing (with 300 ms hold times: the k-th grant exactly when the (k-limit)-th holder releases), also on a pool whose sampling window closes during one of the releases, and with exactly limit+backlog callers; nobody is parked while a slot is free.",
    ref="DESIGN 7 C19", note="limit 1-2, up to limit+2 callers"),
  "C20": dict(technique=T_S + " + " + T_T + " for the poller life cycle",
    text="Instrumented strategies/limits/queue limiter over a recording registry (samples and gauges equal the model after every step); bundled registries' backend contents and dogstatsd datagrams for every kind x prefix x id; all Start/Stop/Register/tick sequences (polled values must reach the backend), Stop racing a tick, and Start/Stop programs on two threads under the virtual ticker.",
